@@ -37,6 +37,7 @@ class Path(object):
         self.ctr = [1000]       # shared fresh counter (list so forks share it)
         self.obls = []          # obligations asserted along this path: (name, goal, pc snapshot)
         self.trace = []
+        self.defs = []          # [(frozenset(fresh symbol names), [constraints])]: total-function axioms
 
     def fork(self):
         p = Path.__new__(Path)
@@ -46,6 +47,7 @@ class Path(object):
         p.ctr = self.ctr
         p.obls = list(self.obls)
         p.trace = list(self.trace)
+        p.defs = list(self.defs)
         return p
 
     def fresh(self):
@@ -55,6 +57,17 @@ class Path(object):
     def assume(self, c):
         if not z3.is_true(c):
             self.pc.append(c)
+
+    def assume_def(self, terms, constraints):
+        """axioms characterising fresh symbols `terms` as values of total functions of existing
+        terms (strip(x), str(n), ...).  Because a value satisfying them always exists, they are only
+        added to a query that mentions one of the symbols (cone of influence)."""
+        names = frozenset(t.decl().name() for t in terms)
+        self.defs.append((names, [c for c in constraints if not z3.is_true(c)]))
+
+    def constraints_for(self, extra):
+        """pc conjuncts relevant to `extra` (list of terms) + the definitional axioms they reach"""
+        return select_constraints(self.pc, self.defs, extra)
 
 
 class Frame(object):
@@ -146,7 +159,7 @@ class Exec(object):
             if z3.is_not(x) and x.arg(0).get_id() == cid:
                 return 'no'
         self.prunes += 1
-        return solve.feasible(relevant_slice(path.pc, c) + [c])
+        return solve.feasible(select_constraints(path.pc, path.defs, [c]) + [c])
 
     def branch(self, path, cond):
         """-> (path_if_true or None, path_if_false or None)"""
@@ -327,6 +340,9 @@ class Exec(object):
                 if isinstance(v, VUnion):
                     v = VUnion(v.alts)
                     v.origin = key
+                elif isinstance(v, VSeq):
+                    v = VSeq(v.t, v.elem)
+                    v.origin = key
                 return v
             raise_unbound = True
             return Raise(self.mk_exc(path, UnboundLocalError, name))
@@ -398,6 +414,13 @@ class Exec(object):
                 if isinstance(v, VUnion):
                     v = VUnion(v.alts)
                     v.origin = key
+                elif isinstance(v, VSeq):
+                    v = VSeq(v.t, v.elem)
+                    v.origin = key
+                elif isinstance(v, VMap):
+                    v2 = VMap(v.t, v.kt, v.vt, v.keys)
+                    v2.origin = key
+                    v = v2
                 return [(path, v)]
             if isinstance(obj, VConc):
                 target = obj.obj
@@ -686,7 +709,41 @@ class Exec(object):
                 return [(path, lift(ca * c))]
         raise Unsupported('binop %s on %r, %r' % (type(op).__name__, a, b))
 
+    def _strip_eq_pattern(self, node):
+        """x.strip() == 'const'  (or !=): returns (x_node, const, negate) or None"""
+        if len(node.ops) != 1 or not isinstance(node.ops[0], (ast.Eq, ast.NotEq)):
+            return None
+        l, r = node.left, node.comparators[0]
+        if isinstance(r, ast.Call) and isinstance(l, ast.Constant):
+            l, r = r, l
+        if not (isinstance(l, ast.Call) and isinstance(l.func, ast.Attribute) and l.func.attr == 'strip'
+                and not l.args and not l.keywords and isinstance(r, ast.Constant) and isinstance(r.value, str)):
+            return None
+        c = r.value
+        if c != c.strip():
+            return None
+        return l.func.value, c, isinstance(node.ops[0], ast.NotEq)
+
     def e_Compare(self, node, path, fr):
+        pat = self._strip_eq_pattern(node)
+        if pat is not None:
+            from .models import re_ws
+            xnode, const, neg = pat
+            out = []
+            for p, v in self.eval(xnode, path, fr):
+                if isinstance(v, Raise):
+                    out.append((p, v))
+                elif isinstance(v, VStr):
+                    # exact: s.strip() == c  <=>  s in ws* c ws*   (c has no leading/trailing whitespace)
+                    ws = z3.Star(re_ws())
+                    t = z3.InRe(v.t, z3.Concat(ws, z3.Re(mk_str(const)), ws) if const else ws)
+                    out.append((p, VBool(z3.simplify(znot(t) if neg else t))))
+                else:
+                    return self._compare_general(node, path, fr)
+            return out
+        return self._compare_general(node, path, fr)
+
+    def _compare_general(self, node, path, fr):
         # chained comparisons: a op1 b op2 c -> (a op1 b) and (b op2 c), each operand evaluated once
         operands = [node.left] + list(node.comparators)
         out = []
@@ -1837,6 +1894,42 @@ def relevant_slice(pc, cond):
                     want |= vs
                     changed = True
     return [c for (c, _), ch in zip(items, chosen) if ch]
+
+
+def select_constraints(pc, defs, extra, slice_pc=True):
+    """constraints needed to decide `extra`: (optionally) the pc conjuncts transitively sharing
+    symbols with extra, plus every definitional axiom whose fresh symbol is mentioned."""
+    want = set()
+    for e in extra:
+        want |= term_vars(e)
+    items = [(c, term_vars(c)) for c in pc]
+    chosen = [not slice_pc] * len(items)
+    if not slice_pc:
+        for _, vs in items:
+            want |= vs
+    dchosen = [False] * len(defs)
+    dvars = [frozenset().union(*[term_vars(c) for c in cs]) if cs else frozenset() for _, cs in defs]
+    changed = True
+    while changed:
+        changed = False
+        if slice_pc:
+            for i, (c, vs) in enumerate(items):
+                if not chosen[i] and (vs & want):
+                    chosen[i] = True
+                    if not vs <= want:
+                        want |= vs
+                    changed = True
+        for i, (names, cs) in enumerate(defs):
+            if not dchosen[i] and (names & want):
+                dchosen[i] = True
+                if not dvars[i] <= want:
+                    want |= dvars[i]
+                changed = True
+    out = [c for (c, _), ch in zip(items, chosen) if ch]
+    for (names, cs), ch in zip(defs, dchosen):
+        if ch:
+            out.extend(cs)
+    return out
 
 
 class _Deleted(V):
